@@ -29,6 +29,13 @@ func Begin(what func() interface{}) {
 	current.Store(&curCase{curSeq, what})
 }
 
+// waitingForChild: the worker itself waits for a sub-process of the harness (C18's free-running pass, first-use
+// footprints): idleness is expected.
+var waitingForChild atomic.Bool
+
+// WaitingForChild announces / ends such a wait.
+func WaitingForChild(on bool) { waitingForChild.Store(on) }
+
 // End marks the end of the unit of work: nothing is current (a worker that then waits for a sub-process, or idles
 // for any other reason of its own, is not a blocked library call).
 func End() { current.Store(nil) }
@@ -61,6 +68,7 @@ func StartWatchdog(c *Ctx, out string) {
 		idleTicks := 0
 		lastCPU := 0.0
 		lastEvals, evalsSince := int64(-1), 0.0
+		unpubIdle, unpubCPU := 0, 0.0
 		for {
 			time.Sleep(200 * time.Millisecond)
 			cur := current.Load()
@@ -77,7 +85,32 @@ func StartWatchdog(c *Ctx, out string) {
 				os.WriteFile(out, b, 0o644)
 				os.Exit(0)
 			}
+			if cur == nil && waitingForChild.Load() {
+				lastEvals, evalsSince, unpubIdle = c.Evals, cpuSeconds(), 0
+				continue
+			}
 			if cur == nil {
+				// blocked forever in a check that does not publish its cases: no evaluation completed during 450
+				// ticks in which the whole process used less than one CPU second (waits for sub-processes of the
+				// harness itself are announced through WaitingForChild)
+				if c.Evals == lastEvals && c.Evals > 0 {
+					unpubIdle++
+					if unpubIdle == 1 {
+						unpubCPU = cpuSeconds()
+					}
+					if unpubIdle > 450 {
+						if cpuSeconds()-unpubCPU < 1.0 {
+							r := &WorkerResult{Counters: map[string]int64{}, Notes: map[string]int64{}, Extra: map[string]interface{}{}}
+							r.Violations = []*Violation{{Property: c.Property, Signature: "noreplay/blocked", What: fmt.Sprintf("no evaluation completed and no CPU was consumed for 450 consecutive watchdog ticks (>= 90 s of process run time) after %d evaluations: a call blocks forever", c.Evals), Count: 1}}
+							b, _ := json.Marshal(r)
+							os.WriteFile(out, b, 0o644)
+							os.Exit(0)
+						}
+						unpubIdle = 0
+					}
+				} else {
+					unpubIdle = 0
+				}
 				// checks that do not publish their cases: no evaluation completed while the process burnt four CPU
 				// budgets (an idle process — waiting for a sub-process — burns none)
 				now := cpuSeconds()
